@@ -724,9 +724,6 @@ theorem checkedInit_sound (cand : Vec) : InitSound (checkedInit cand) := by
 theorem polyRes_length (qs : List Poly) (e : Env) : (polyRes qs e).length = qs.length := by
   simp [polyRes]
 
-/-- a root finder that tries a list of candidates and answers with the first that is a root -/
-def checkedRoots (cands : List Vec) : Root := fun r g =>
-  cands.find? fun c => decide (c.length = g.length) && (r c).all (fun v => v == 0)
 
 theorem checkedRoots_sound (cands : List Vec) : RootSound (checkedRoots cands) := by
   intro r g x h
@@ -735,6 +732,15 @@ theorem checkedRoots_sound (cands : List Vec) : RootSound (checkedRoots cands) :
   refine ⟨this.1, fun v hv => ?_⟩
   have := List.all_eq_true.1 this.2 v hv
   simpa using this
+
+/-- the driver's root finder honours the contract of the theorems (its answers are re-checked) -/
+theorem soundAffineRoot_sound : RootSound soundAffineRoot := by
+  intro r g x h
+  unfold soundAffineRoot at h
+  split at h
+  · cases h
+  · exact checkedRoots_sound _ r g x h
+
 
 /-! ### the concrete instance used by the non-vacuity examples of `Props/C09.lean` -/
 
